@@ -15,12 +15,14 @@ OBLIGATIONS = [
     "KafVerif.C08.restored_records_exact_prefix",
     "KafVerif.C08.restore_fail_clean",
     "KafVerif.C08.last_candidate_spec",
+    "KafVerif.C08.restore_run_exact",
 ]
 ASSUMPTIONS = [
     "S3 contract: a call either fails without effect or takes effect atomically on one object; the i-th call of a run fails iff i is in the fault set (every call index is explored); delete failures are allowed and then the clean-up claim is void, as the property says",
     "object keys are abstract (topic, partition, base offset) triples in the model; key formatting/parsing is exercised through the real code only",
     "source batches are well formed: firstTimestamp is the first record's timestamp and maxTimestamp the maximum (the scanner trusts these header fields for whole-batch decisions)",
     "CRC-32C is a parameter of the theorems",
+    "restore_run_exact: the store is a map (distinct object keys), the target topic is empty before the run, and every source-topic segment object is BuildSegment of a non-empty list of well-formed uncompressed batches stored under the base offset of its first batch (what the broker writes); the allocator admits one copy of a segment body",
 ]
 BUILDS = {
     "root": ("root", "./cmd/verif_c07", ["C07"]),
@@ -29,8 +31,10 @@ BUILDS = {
 LEVEL_TEXT = ("proof: Lean 4 theorems over a model of RecoverTopicToTimestamp (candidate selection, copy loop, rollback defer) on an S3 "
               "object map with a fault oracle, and of truncateRecordBatchToTimestamp/scanRecord/collectRecoverableBatches at byte level; "
               "tied to the code by correspondence of result + target objects on generated histories x fault positions")
-LEVEL_NOTE = ("byte level and object level are each proved in full; their composition for a whole multi-partition run is by "
-              "definition of the model (copyOne uploads buildRestorePlan's output) and validated by correspondence + monitor")
+LEVEL_NOTE = ("byte level, object level and their composition over a whole multi-partition run with an arbitrary fault set are "
+              "proved (restore_run_exact: target objects = whole copies before the last candidate + BuildSegment of the kept "
+              "batches, decodable records = source records up to the first one later than T; failure + successful deletes = "
+              "empty target); the record-level part assumes uncompressed broker-written source segments")
 TECHNIQUE = "lean4-proof + differential correspondence (fake S3 with fault oracle) + direct byte-level monitor of the target objects"
 
 T0 = 1700000100000
@@ -43,15 +47,39 @@ def gen_partition(rng, T):
     base = rng.choice([0, 0, 5, 1000])
     ts = T - rng.choice([0, 1, 50, 500, 5000, 100000])
     segs = []
-    for _ in range(nseg):
+    # timestamps are producer-assigned, so a batch wholly later than T may be followed by batches at or before T (several
+    # producers, clock skew): `gap` forces that layout in the partition's last segment, `regress` sprinkles it anywhere
+    layout = rng.choice(["-", "-", "gap", "edge"])
+    gap = layout != "-"
+    for si in range(nseg):
         nb = rng.choice([1, 1, 2, 3])
+        forced = None
+        if layout == "gap" and si == nseg - 1:
+            # wholly later than T in the middle, at or before T after it
+            forced = [(T - rng.choice([1, 40, 200]), "any"), (T + rng.choice([1, 5, 1000]), "any"), (T - rng.choice([0, 3, 30]), "flat")]
+            if rng.chance(1, 2):
+                forced.append((T - rng.choice([0, 2]), "flat"))
+        elif layout == "edge" and si == nseg - 1:
+            # a batch whose newest record is exactly at T, followed by more records at or before T, then (maybe) later ones
+            forced = [(T - rng.choice([1, 7, 300]), "maxT"), (T - rng.choice([0, 0, 1]), "flat")]
+            if rng.chance(1, 2):
+                forced.append((T - rng.choice([0, 1]), "maxT"))
+            if rng.chance(1, 2):
+                forced.append((T + rng.choice([1, 100]), "any"))
+        if forced is not None:
+            nb = len(forced)
         batches = []
-        for _ in range(nb):
-            n = rng.choice([1, 2, 3, 4])
+        for bi in range(nb):
+            mode = "any"
+            if forced is not None:
+                ts, mode = forced[bi]
+            n = rng.choice([1, 2, 3, 4]) if mode != "maxT" else rng.choice([2, 3, 4])
             recs, od, last_ts = [], 0, ts
             for i in range(n):
-                if i == 0:
+                if i == 0 or mode == "flat":
                     tsd = 0
+                elif mode == "maxT":
+                    tsd = T - ts if i == n - 1 else rng.choice([0, (T - ts) // 2, T - ts])
                 else:
                     step = rng.choice([0, 1, 1, 10, 100, 1000, -1, -20, T - ts, T - ts + 1, T - ts - 1])
                     tsd = (last_ts - ts) + step
@@ -63,8 +91,12 @@ def gen_partition(rng, T):
             batches.append(b)
             base += b["lod"] + 1
             ts = max(ts, last_ts) + rng.choice([0, 1, 10, 100, 1000])
+            if rng.chance(1, 8):
+                ts = T - rng.choice([0, 1, 30, 400])              # regress: back to (or before) the cutoff
         hi = max(b["max"] for b in batches)
         created = rng.choice([hi, hi + 1, hi + 1000, T, T + 1, T - 1, T + 100000, T - 100000])
+        if gap and si < nseg - 1:
+            created = T - rng.choice([1, 100000])                 # earlier segments are copied whole: the gap segment is the last candidate
         segs.append({"interval": rng.choice([1, 2, 100]), "created": created, "batches": batches})
     return segs
 
@@ -312,15 +344,16 @@ def run(ck):
         return
     ncase = 24 if ck.quick() else 160
     ck.cov["rule"] = ("histories = 1-3 partitions x 1-4 broker-built segments x 1-3 batches x 1-4 records with timestamps placed around T "
-                      "(equal, +-1, non-monotone), segment creation times before/at/after T, partition filters, and quirks (missing index, "
+                      "(equal, +-1, non-monotone inside a batch and across batches: a batch wholly later than T followed by batches <= T; a batch whose newest record is exactly at T followed by more records <= T), segment creation times before/at/after T, partition filters, and quirks (missing index, "
                       "bad magic, short object, pre-existing target, orphan target index, compressed final batch, unrelated topic); each "
                       "history is run fault-free and with a failure injected at S3 call indices (quick: 6 sampled incl. first/last upload "
                       "and a delete; thorough: every index + pairs); non-trivial = at least one record bytes cut or a fault hit; "
                       "distinct = distinct restore ops")
-    ck.partial = ("proved: byte level (scan loop, rewritten batch = encoding of the cut batch, collectRecoverableBatches on a "
-                  "broker-written body, exact-prefix of the records) and object level (nothing outside the target is touched; a failed "
-                  "run whose deletes succeed leaves the target empty; candidate selection); not proved as one theorem: their "
-                  "composition over a whole multi-partition successful run (validated by correspondence + byte-level monitor)")
+    ck.partial = ("proved as one theorem (restore_run_exact) for every store whose source-topic segment objects are broker-written "
+                  "from uncompressed well-formed batches with true header timestamps, every cutoff, partition filter and S3 fault "
+                  "set; not covered by the theorem (checked by correspondence + byte-level monitor only): source segments that "
+                  "contain compressed batches (opaque at record level: kept whole on header timestamps or the restore fails), the "
+                  "per-partition summaries returned to the caller, and the string form of object keys (C22)")
     cases = [gen_case(ck.rng.fork()) for _ in range(ncase)]
     materialise(ck, bins, cases)
     base_ops = [restore_op(c, []) for c in cases]
